@@ -123,6 +123,21 @@ def run_unit(unit_name, repo='/repo', rlimit=None, twins=True, extra_args=(), ta
     try:
         u = generate(unit_name, repo, extra_consts)
     except GenError as e:
+        if getattr(e, 'derive_only', False):
+            # the derive users of hooks/syncx_blocks.rs use only documented features; when the ONLY compiler errors lie
+            # inside the code the derive macro generated for them, the macro no longer serves that arity / mode: a
+            # definite failure with a concrete failing program (not an extraction problem)
+            res.status = 'failed'
+            res.failures.append({'unit': unit_name, 'fn': 'hooks/syncx_blocks.rs', 'kind': 'compile',
+                                 'label': 'C19.syncx.derive-users-of-every-arity-compile', 'props': ['C19'],
+                                 'message': str(e), 'gen_line': None, 'src': None, 'stmt': '',
+                                 'rendered': getattr(e, 'output', '')[:3000],
+                                 'counterexample': {'kind': 'program', 'program': 'hooks/syncx_blocks.rs',
+                                                    'errors': getattr(e, 'output', '')[:2000],
+                                                    'cmd': 'cargo check --offline --test verif_syncx   (in a scratch copy of /repo with hooks/syncx_blocks.rs as tests/verif_syncx.rs)'}})
+            res.reason = str(e)
+            res.verus_cmd = 'cargo check --offline --test verif_syncx (vx/expand.py)'
+            return res
         res.status, res.reason = 'undecided', str(e)
         return res
     except Exception as e:  # tokenizer / template problems are never a violation
